@@ -666,7 +666,7 @@ Proof.
   intros I N. destruct e; simpl in N.
   - (* EAppend *)
     assert (Ho : (open = None \/ open = Some a) /\ open' = Some a).
-    { destruct open as [b|]; [destruct (a =? b) eqn:E; [|discriminate]|]; inversion N; subst; auto.
+    { destruct open as [bb|]; [destruct (a =? bb) eqn:E; [|discriminate]|]; inversion N; subst; auto.
       apply Z.eqb_eq in E. subst. auto. }
     destruct Ho as [Ho E]. subst open'. simpl.
     destruct (ver =? 1).
@@ -676,14 +676,14 @@ Proof.
       simpl. eapply inv_append; eauto. eapply append_v2_ext; eauto.
   - (* EExemplar *)
     assert (Ho : (open = None \/ open = Some a) /\ open' = Some a).
-    { destruct open as [b|]; [destruct (a =? b) eqn:E; [|discriminate]|]; inversion N; subst; auto.
+    { destruct open as [bb|]; [destruct (a =? bb) eqn:E; [|discriminate]|]; inversion N; subst; auto.
       apply Z.eqb_eq in E. subst. auto. }
     destruct Ho as [Ho E]. subst open'. simpl.
     destruct (exemplar_v1 (st_db st) (get_app st a) r e) as [[d' p'] [[rr err] perr]] eqn:A.
     simpl. eapply inv_append; eauto. eapply exemplar_v1_ext; eauto.
   - (* ECommit *)
     assert (Ho : (open = None \/ open = Some a) /\ open' = None).
-    { destruct open as [b|]; [destruct (a =? b) eqn:E; [|discriminate]|]; inversion N; subst; auto.
+    { destruct open as [bb|]; [destruct (a =? bb) eqn:E; [|discriminate]|]; inversion N; subst; auto.
       apply Z.eqb_eq in E. subst. auto. }
     destruct Ho as [Ho E]. subst open'. simpl. unfold commit.
     rewrite (pend_open _ _ _ I Ho).
@@ -694,7 +694,7 @@ Proof.
     + rewrite !bump_ids. reflexivity.
   - (* ERollback *)
     assert (Ho : (open = None \/ open = Some a) /\ open' = None).
-    { destruct open as [b|]; [destruct (a =? b) eqn:E; [|discriminate]|]; inversion N; subst; auto.
+    { destruct open as [bb|]; [destruct (a =? bb) eqn:E; [|discriminate]|]; inversion N; subst; auto.
       apply Z.eqb_eq in E. subst. auto. }
     destruct Ho as [Ho E]. subst open'. simpl. unfold rollback.
     rewrite (pend_open _ _ _ I Ho).
@@ -735,7 +735,7 @@ Lemma inv_run o : forall es st open e,
   exists open', Inv (fst (run_from o st es)) open' /\ next_open open' e <> None.
 Proof.
   induction es as [|x es IH]; intros st open e I W.
-  - exists open. split; auto. simpl in W. rewrite wf_from_cons in W.
+  - exists open. split; auto. change ([] ++ [e]) with [e] in W. rewrite wf_from_cons in W.
     destruct (next_open open e); congruence.
   - rewrite <- app_comm_cons, wf_from_cons in W. destruct (next_open open x) as [o1|] eqn:N; [|discriminate].
     rewrite run_from_cons. eapply IH; eauto. eapply inv_step; eauto.
@@ -789,11 +789,498 @@ Lemma commit_logged o st open a rolls it :
 Proof.
   intros I N H.
   assert (Ho : open = None \/ open = Some a).
-  { simpl in N. destruct open as [b|]; auto. destruct (a =? b) eqn:E; [|congruence]. apply Z.eqb_eq in E. subst; auto. }
+  { simpl in N. destruct open as [bb|]; auto. destruct (a =? bb) eqn:E; [|congruence]. apply Z.eqb_eq in E. subst; auto. }
   simpl. unfold commit. simpl. rewrite wal_records_write by apply (inv_wal _ _ I).
   rewrite (pend_open _ _ _ I Ho) in *.
   destruct (item_in_log _ _ H) as [m1 [R [m2 [E HR]]]]. rewrite E.
   rewrite app_assoc. apply logged_from_intro; auto. right.
   rewrite !series_refs_app, series_refs_nonempty, !in_app_iff.
   destruct (inv_items _ _ I it H) as [C|C]; auto.
+Qed.
+
+(* ------------------------------------------------------------------ accepted => pending *)
+Ltac bad_err := exfalso; repeat match goal with X : _ = _ |- _ => (compute in X; discriminate X) || clear X end.
+
+Lemma in_push p kind x : 0 <= kind <= 4 -> In (kind, x) (pending_items (push p kind x)).
+Proof.
+  intros H. assert (K : kind = 0 \/ kind = 1 \/ kind = 2 \/ kind = 3 \/ kind = 4) by lia.
+  unfold push, pending_items.
+  destruct K as [K|[K|[K|[K|K]]]]; subst; simpl; rewrite ?map_app, ?in_app_iff; simpl; auto 10.
+Qed.
+
+Lemma push_mono p kind x : incl (pending_items p) (pending_items (push p kind x)).
+Proof.
+  intros it H. unfold push, pending_items in *.
+  destruct (kind =? 0); [|destruct ((kind =? 1) || (kind =? 3))]; simpl;
+    rewrite ?map_app, ?in_app_iff in *; simpl; tauto.
+Qed.
+
+Lemma push_ex_mono p x : incl (pending_items p) (pending_items (push_ex p x)).
+Proof.
+  intros it H. unfold push_ex, pending_items in *. simpl. rewrite ?map_app, ?in_app_iff in *. simpl. tauto.
+Qed.
+
+Lemma ex_fold_mono : forall es d p r errs d' p' errs',
+  ex_fold d p r es errs = (d', p', errs') -> incl (pending_items p) (pending_items p').
+Proof.
+  induction es as [|e es IH]; intros d p r errs d' p' errs' H; simpl in H.
+  - inversion H; subst. apply incl_refl.
+  - destruct (ex_check d r e =? -1); [eapply IH; eauto|].
+    destruct (negb (ex_check d r e =? 0)); [eapply IH; eauto|].
+    eapply incl_tran; [apply push_ex_mono|]. eapply IH; eauto.
+Qed.
+
+Lemma best_effort_mono p s lastTS st t zv kind : incl (pending_items p) (pending_items (best_effort p s lastTS st t zv kind)).
+Proof.
+  unfold best_effort. destruct (t <=? st); [apply incl_refl|]. destruct (st <=? lastTS); [apply incl_refl|].
+  apply push_mono.
+Qed.
+
+Lemma goc_items d p r b d1 p1 s : get_or_create d p r b = inl (d1, p1, s) -> pending_items p1 = pending_items p.
+Proof. intros H. apply goc_ext in H. tauto. Qed.
+
+Lemma goc_err d p r b e : get_or_create d p r b = inr e -> e = E_INVALID.
+Proof.
+  unfold get_or_create. destruct (if r =? 0 then None else find_id r (d_series d)); [discriminate|].
+  destruct (b <=? 0); [intros H; inversion H; auto|]. destruct (find_lab b (d_series d)); discriminate.
+Qed.
+
+(* appender V1: an append that returns no error has put its sample into the pending list *)
+Theorem append_v1_accept o d p r b t v kind hbad d' p' rr err perr :
+  append_v1 o d p r b t v kind hbad = (d', p', (rr, err, perr)) -> err = E_OK -> 0 <= kind <= 4 ->
+  In (kind, (rr, t, v)) (pending_items p').
+Proof.
+  unfold append_v1. intros H E K.
+  destruct (negb (kind =? 0) && hbad); [inversion H; subst; bad_err|].
+  destruct (get_or_create d p r b) as [[[d1 p1] s]|e] eqn:G; [|apply goc_err in G; inversion H; subst; bad_err].
+  destruct (t <=? min_valid (o_oow o) (s_last s)); inversion H; subst; [bad_err|].
+  apply in_push; auto.
+Qed.
+
+Theorem append_v1_mono o d p r b t v kind hbad d' p' res :
+  append_v1 o d p r b t v kind hbad = (d', p', res) -> incl (pending_items p) (pending_items p').
+Proof.
+  unfold append_v1. intros H.
+  destruct (negb (kind =? 0) && hbad); [inversion H; subst; apply incl_refl|].
+  destruct (get_or_create d p r b) as [[[d1 p1] s]|e] eqn:G; [|inversion H; subst; apply incl_refl].
+  apply goc_items in G.
+  destruct (t <=? min_valid (o_oow o) (s_last s)); inversion H; subst.
+  - rewrite G. apply incl_refl.
+  - rewrite <- G. apply push_mono.
+Qed.
+
+(* appender V2 *)
+Theorem append_v2_accept o d p r b st t v zv kind hbad stale exs d' p' rr err perr :
+  append_v2 o d p r b st t v zv kind hbad stale exs = (d', p', (rr, err, perr)) ->
+  err = E_OK \/ err = E_PARTIAL -> 0 <= kind <= 4 ->
+  In (kind, (rr, t, v)) (pending_items p').
+Proof.
+  unfold append_v2. intros H E K.
+  destruct (negb (kind =? 0) && hbad); [destruct E as [E|E]; inversion H; subst; bad_err|].
+  destruct (get_or_create d p r b) as [[[d1 p1] s]|e] eqn:G; [|apply goc_err in G; destruct E as [E|E]; inversion H; subst; bad_err].
+  set (p2 := if o_stz o && negb (st =? 0) then best_effort p1 s (s_last s) st t zv kind else p1) in *.
+  destruct (t <=? min_valid (o_oow o) (s_last s)); [destruct E as [E|E]; inversion H; subst; bad_err|].
+  pose proof (in_push p2 kind (s_ref s, t, v) K) as IP.
+  destruct stale; [inversion H; subst; auto|].
+  destruct exs as [|e0 exs]; [inversion H; subst; auto|].
+  destruct (ex_fold d1 (push p2 kind (s_ref s, t, v)) (s_ref s) (e0 :: exs) []) as [[d4 p4] errs] eqn:F.
+  apply ex_fold_mono in F.
+  destruct errs; inversion H; subst; apply F; auto.
+Qed.
+
+Theorem append_v2_mono o d p r b st t v zv kind hbad stale exs d' p' res :
+  append_v2 o d p r b st t v zv kind hbad stale exs = (d', p', res) -> incl (pending_items p) (pending_items p').
+Proof.
+  unfold append_v2. intros H.
+  destruct (negb (kind =? 0) && hbad); [inversion H; subst; apply incl_refl|].
+  destruct (get_or_create d p r b) as [[[d1 p1] s]|e] eqn:G; [|inversion H; subst; apply incl_refl].
+  apply goc_items in G.
+  set (p2 := if o_stz o && negb (st =? 0) then best_effort p1 s (s_last s) st t zv kind else p1) in *.
+  assert (M2 : incl (pending_items p) (pending_items p2)).
+  { rewrite <- G. unfold p2. destruct (o_stz o && negb (st =? 0)); [apply best_effort_mono|apply incl_refl]. }
+  destruct (t <=? min_valid (o_oow o) (s_last s)); [inversion H; subst; auto|].
+  assert (M3 : incl (pending_items p) (pending_items (push p2 kind (s_ref s, t, v)))).
+  { eapply incl_tran; [exact M2|apply push_mono]. }
+  destruct stale; [inversion H; subst; auto|].
+  destruct exs as [|e0 exs]; [inversion H; subst; auto|].
+  destruct (ex_fold d1 (push p2 kind (s_ref s, t, v)) (s_ref s) (e0 :: exs) []) as [[d4 p4] errs] eqn:F.
+  apply ex_fold_mono in F.
+  destruct errs; inversion H; subst; eapply incl_tran; eauto.
+Qed.
+
+(* AppendExemplar (V1): accepted = returned the series ref *)
+Theorem exemplar_v1_accept d p r e d' p' rr err perr :
+  exemplar_v1 d p r e = (d', p', (rr, err, perr)) -> err = E_OK -> rr <> 0 ->
+  In (-1, (rr, snd (fst e), fst (fst e))) (pending_items p').
+Proof.
+  unfold exemplar_v1. intros H E N.
+  destruct (find_id r (d_series d)) as [s|]; [|inversion H; subst; contradiction].
+  destruct (ex_check d (s_ref s) e =? -1); [inversion H; subst; contradiction|].
+  destruct (negb (ex_check d (s_ref s) e =? 0)); inversion H; subst; [contradiction|].
+  unfold push_ex, pending_items. simpl. rewrite !in_app_iff, map_app, in_app_iff. simpl. auto 10.
+Qed.
+
+Theorem exemplar_v1_mono d p r e d' p' res :
+  exemplar_v1 d p r e = (d', p', res) -> incl (pending_items p) (pending_items p').
+Proof.
+  unfold exemplar_v1. intros H.
+  destruct (find_id r (d_series d)) as [s|]; [|inversion H; subst; apply incl_refl].
+  destruct (ex_check d (s_ref s) e =? -1); [inversion H; subst; apply incl_refl|].
+  destruct (negb (ex_check d (s_ref s) e =? 0)); inversion H; subst; [apply incl_refl|apply push_ex_mono].
+Qed.
+
+(* pending data of appender a stays pending until a's own commit / rollback (or a restart) *)
+Definition ends (a : Z) (e : event) : bool :=
+  match e with
+  | ECommit a' _ | ERollback a' _ => a' =? a
+  | ERestart => true
+  | _ => false
+  end.
+
+Theorem pending_kept o st e a :
+  ends a e = false ->
+  incl (pending_items (get_app st a)) (pending_items (get_app (fst (step o st e)) a)).
+Proof.
+  intros En. destruct e; simpl in *; try apply incl_refl; try discriminate.
+  - destruct (ver =? 1).
+    + destruct (append_v1 o (st_db st) (get_app st a0) r b t v kind hbad) as [[d' p'] [[rr err] perr]] eqn:A.
+      simpl. unfold get_app at 2. simpl. destruct (Z.eq_dec a a0) as [E|N].
+      * subst. rewrite lookup_upsert_eq. eapply append_v1_mono; eauto.
+      * rewrite lookup_upsert_neq by auto. apply incl_refl.
+    + destruct (append_v2 o (st_db st) (get_app st a0) r b st0 t v zv kind hbad stale exs) as [[d' p'] [[rr err] perr]] eqn:A.
+      simpl. unfold get_app at 2. simpl. destruct (Z.eq_dec a a0) as [E|N].
+      * subst. rewrite lookup_upsert_eq. eapply append_v2_mono; eauto.
+      * rewrite lookup_upsert_neq by auto. apply incl_refl.
+  - destruct (exemplar_v1 (st_db st) (get_app st a0) r e) as [[d' p'] [[rr err] perr]] eqn:A.
+    simpl. unfold get_app at 2. simpl. destruct (Z.eq_dec a a0) as [E|N].
+    + subst. rewrite lookup_upsert_eq. eapply exemplar_v1_mono; eauto.
+    + rewrite lookup_upsert_neq by auto. apply incl_refl.
+  - unfold get_app. simpl. rewrite lookup_remove_key. rewrite Z.eqb_sym, En. apply incl_refl.
+  - unfold get_app. simpl. rewrite lookup_remove_key. rewrite Z.eqb_sym, En. apply incl_refl.
+Qed.
+
+(* ------------------------------------------------------------------ admission *)
+Lemma min_valid_spec oow last :
+  0 <= oow -> int64 oow -> int64 last -> min_valid oow last = Z.max minInt64 (last - oow).
+Proof.
+  unfold int64, min_valid. intros H0 H1 H2.
+  rewrite (wrap64_id (minInt64 + oow)) by (unfold int64, minInt64, maxInt64 in *; lia).
+  destruct (last <? minInt64 + oow) eqn:E.
+  - apply Z.ltb_lt in E. lia.
+  - apply Z.ltb_ge in E. rewrite wrap64_id by (unfold int64, minInt64, maxInt64 in *; lia). lia.
+Qed.
+
+(* the series an append resolves to when the label set is known and no (live) ref is given *)
+Lemma goc_existing d p b s :
+  0 < b -> find_lab b (d_series d) = Some s -> get_or_create d p 0 b = inl (d, p, s).
+Proof.
+  intros Hb F. unfold get_or_create. simpl.
+  destruct (b <=? 0) eqn:E; [apply Z.leb_le in E; lia|]. rewrite F. reflexivity.
+Qed.
+
+Lemma goc_by_ref d p r b s :
+  r <> 0 -> find_id r (d_series d) = Some s -> get_or_create d p r b = inl (d, p, s).
+Proof.
+  intros Hr F. unfold get_or_create. apply Z.eqb_neq in Hr. rewrite Hr, F. reflexivity.
+Qed.
+
+Theorem append_v1_admission o d p r b t v kind hbad d1 p1 s :
+  negb (kind =? 0) && hbad = false ->
+  get_or_create d p r b = inl (d1, p1, s) ->
+  snd (append_v1 o d p r b t v kind hbad) =
+  if t <=? min_valid (o_oow o) (s_last s) then (0, E_OOO, []) else (s_ref s, E_OK, []).
+Proof.
+  intros H G. unfold append_v1. rewrite H, G. destruct (t <=? min_valid (o_oow o) (s_last s)); reflexivity.
+Qed.
+
+Theorem append_v2_admission o d p r b st t v zv kind hbad stale exs d1 p1 s :
+  negb (kind =? 0) && hbad = false ->
+  get_or_create d p r b = inl (d1, p1, s) ->
+  let res := snd (append_v2 o d p r b st t v zv kind hbad stale exs) in
+  if t <=? min_valid (o_oow o) (s_last s) then res = (0, E_OOO, [])
+  else fst (fst res) = s_ref s /\ (snd (fst res) = E_OK \/ snd (fst res) = E_PARTIAL).
+Proof.
+  intros H G. unfold append_v2. rewrite H, G.
+  destruct (t <=? min_valid (o_oow o) (s_last s)); [reflexivity|].
+  destruct stale; [simpl; auto|]. destruct exs as [|e0 exs]; [simpl; auto|].
+  destruct (ex_fold _ _ _ _ _) as [[d4 p4] errs]. destruct errs; simpl; auto.
+Qed.
+
+(* ------------------------------------------------------------------ lastTs dominates what was committed *)
+Lemma find_id_set_last r r' f l :
+  find_id r (set_last r' f l) =
+  match find_id r l with
+  | Some s => Some (if r =? r' then mkS (s_ref s) (s_lab s) (f (s_last s)) else s)
+  | None => None
+  end.
+Proof.
+  induction l as [|a l IH]; simpl; auto.
+  destruct (s_ref a =? r') eqn:E1; simpl.
+  - destruct (s_ref a =? r) eqn:E2.
+    + apply Z.eqb_eq in E1, E2. subst. rewrite Z.eqb_refl. auto.
+    + destruct (find_id r l) eqn:F; auto.
+      destruct (r =? r') eqn:E3; auto. apply Z.eqb_eq in E1, E3. subst. rewrite Z.eqb_refl in E2. discriminate.
+  - destruct (s_ref a =? r) eqn:E2.
+    + destruct (r =? r') eqn:E3; auto. apply Z.eqb_eq in E2, E3. subst. rewrite Z.eqb_refl in E1. discriminate.
+    + apply IH.
+Qed.
+
+Lemma bump_last : forall xs l r s,
+  find_id r l = Some s ->
+  exists s', find_id r (bump l xs) = Some s' /\ s_lab s' = s_lab s /\ s_last s <= s_last s' /\
+             (forall x, In x xs -> fst (fst x) = r -> snd (fst x) <= s_last s').
+Proof.
+  unfold bump. induction xs as [|x xs IH]; intros l r s F; simpl.
+  - exists s. repeat split; auto; try lia; try (intros x []).
+  - pose proof (find_id_set_last r (fst (fst x)) (update_ts (snd (fst x))) l) as E. rewrite F in E.
+    destruct (IH _ _ _ E) as [s' [F' [L' [M' A']]]]. exists s'. split; auto.
+    assert (U : forall t l0, l0 <= update_ts t l0 /\ t <= update_ts t l0).
+    { intros t l0. unfold update_ts. destruct (l0 <=? t) eqn:C; [apply Z.leb_le in C|apply Z.leb_gt in C]; lia. }
+    destruct (r =? fst (fst x)) eqn:C; simpl in *.
+    + apply Z.eqb_eq in C. destruct (U (snd (fst x)) (s_last s)). repeat split; auto; try lia.
+      intros y [Hy|Hy] Ey; [subst y; lia|auto].
+    + repeat split; auto. intros y [Hy|Hy] Ey; [subst y; apply Z.eqb_neq in C; congruence|auto].
+Qed.
+
+(* Commit: the series keeps its label set, lastTs does not decrease and is at least the timestamp of
+   every float / histogram / float histogram sample the commit logged for it *)
+Theorem commit_last d p rolls r s :
+  find_id r (d_series d) = Some s ->
+  exists s', find_id r (d_series (commit d p rolls)) = Some s' /\ s_lab s' = s_lab s /\ s_last s <= s_last s' /\
+    (forall x, In x (p_samples p ++ map snd (p_hist p) ++ map snd (p_fhist p)) -> fst (fst x) = r ->
+               snd (fst x) <= s_last s').
+Proof.
+  intros F. simpl.
+  destruct (bump_last (p_samples p) _ _ _ F) as [s1 [F1 [L1 [M1 A1]]]].
+  destruct (bump_last (map snd (p_hist p)) _ _ _ F1) as [s2 [F2 [L2 [M2 A2]]]].
+  destruct (bump_last (map snd (p_fhist p)) _ _ _ F2) as [s3 [F3 [L3 [M3 A3]]]].
+  exists s3. split; auto. split; [congruence|]. split; [lia|].
+  intros x H E. rewrite !in_app_iff in H. destruct H as [H|[H|H]].
+  - specialize (A1 x H E). lia.
+  - specialize (A2 x H E). lia.
+  - auto.
+Qed.
+
+Lemma find_id_app r l n s : find_id r l = Some s -> find_id r (l ++ n) = Some s.
+Proof. induction l as [|a l IH]; simpl; [discriminate|]. destruct (s_ref a =? r); auto. Qed.
+
+Definition grow (d d' : db) : Prop := exists n, d_series d' = d_series d ++ n.
+
+Lemma grow_refl d : grow d d. Proof. exists []. rewrite app_nil_r. auto. Qed.
+Lemma grow_trans a b c : grow a b -> grow b c -> grow a c.
+Proof. intros [n E] [m F]. exists (n ++ m). rewrite F, E, app_assoc. auto. Qed.
+
+Lemma goc_grow d p r b d1 p1 s : get_or_create d p r b = inl (d1, p1, s) -> grow d d1.
+Proof.
+  unfold get_or_create.
+  destruct (if r =? 0 then None else find_id r (d_series d)); [intros H; inversion H; subst; apply grow_refl|].
+  destruct (b <=? 0); [discriminate|].
+  destruct (find_lab b (d_series d)); intros H; inversion H; subst; [apply grow_refl|].
+  eexists. simpl. reflexivity.
+Qed.
+
+Lemma set_lastex_grow d r e : grow d (set_lastex d r e).
+Proof. exists []. rewrite (proj2 (set_lastex_same d r e)), app_nil_r. auto. Qed.
+
+Lemma ex_fold_grow : forall es d p r errs d' p' errs', ex_fold d p r es errs = (d', p', errs') -> grow d d'.
+Proof.
+  induction es as [|e es IH]; intros d p r errs d' p' errs' H; simpl in H.
+  - inversion H; subst. apply grow_refl.
+  - destruct (ex_check d r e =? -1); [eapply IH; eauto|].
+    destruct (negb (ex_check d r e =? 0)); [eapply IH; eauto|].
+    eapply grow_trans; [apply set_lastex_grow|eapply IH; eauto].
+Qed.
+
+Lemma append_v1_grow o d p r b t v kind hbad d' p' res :
+  append_v1 o d p r b t v kind hbad = (d', p', res) -> grow d d'.
+Proof.
+  unfold append_v1. destruct (negb (kind =? 0) && hbad); [intros H; inversion H; subst; apply grow_refl|].
+  destruct (get_or_create d p r b) as [[[d1 p1] s]|e] eqn:G; [|intros H; inversion H; subst; apply grow_refl].
+  apply goc_grow in G. destruct (t <=? min_valid (o_oow o) (s_last s)); intros H; inversion H; subst; auto.
+Qed.
+
+Lemma append_v2_grow o d p r b st t v zv kind hbad stale exs d' p' res :
+  append_v2 o d p r b st t v zv kind hbad stale exs = (d', p', res) -> grow d d'.
+Proof.
+  unfold append_v2. destruct (negb (kind =? 0) && hbad); [intros H; inversion H; subst; apply grow_refl|].
+  destruct (get_or_create d p r b) as [[[d1 p1] s]|e] eqn:G; [|intros H; inversion H; subst; apply grow_refl].
+  apply goc_grow in G.
+  destruct (t <=? min_valid (o_oow o) (s_last s)); [intros H; inversion H; subst; auto|].
+  destruct stale; [intros H; inversion H; subst; auto|].
+  destruct exs as [|e0 exs]; [intros H; inversion H; subst; auto|].
+  destruct (ex_fold _ _ _ _ _) as [[d4 p4] errs] eqn:F. apply ex_fold_grow in F.
+  destruct errs; intros H; inversion H; subst; eapply grow_trans; eauto.
+Qed.
+
+Lemma exemplar_v1_grow d p r e d' p' res : exemplar_v1 d p r e = (d', p', res) -> grow d d'.
+Proof.
+  unfold exemplar_v1. destruct (find_id r (d_series d)); [|intros H; inversion H; subst; apply grow_refl].
+  destruct (ex_check d (s_ref m) e =? -1); [intros H; inversion H; subst; apply grow_refl|].
+  destruct (negb (ex_check d (s_ref m) e =? 0)); intros H; inversion H; subst; [apply grow_refl|apply set_lastex_grow].
+Qed.
+
+Lemma find_id_filter r (g : list ref) l :
+  find_id r (filter (fun s => negb (memz (s_ref s) g)) l) = if memz r g then None else find_id r l.
+Proof.
+  induction l as [|a l IH]; simpl.
+  - destruct (memz r g); auto.
+  - destruct (memz (s_ref a) g) eqn:M; simpl.
+    + rewrite IH. destruct (s_ref a =? r) eqn:E; auto. apply Z.eqb_eq in E. subst. rewrite M. auto.
+    + destruct (s_ref a =? r) eqn:E; auto. apply Z.eqb_eq in E. subst. rewrite M. auto.
+Qed.
+
+(* between restarts the lastTs of a series never decreases; a series disappears only through the
+   garbage collection of DB.truncate *)
+Theorem last_monotone o st e r s :
+  e <> ERestart ->
+  find_id r (d_series (st_db st)) = Some s ->
+  match find_id r (d_series (st_db (fst (step o st e)))) with
+  | Some s' => s_lab s' = s_lab s /\ s_last s <= s_last s'
+  | None => exists mint, e = ETruncate mint /\ In r (gc_gone mint (d_series (st_db st)))
+  end.
+Proof.
+  intros NR F.
+  assert (G : forall d', grow (st_db st) d' -> match find_id r (d_series d') with
+                                              | Some s' => s_lab s' = s_lab s /\ s_last s <= s_last s'
+                                              | None => exists mint, e = ETruncate mint /\ In r (gc_gone mint (d_series (st_db st))) end).
+  { intros d' [n E]. rewrite E, (find_id_app _ _ n _ F). split; auto; lia. }
+  destruct e; simpl; try (apply G; apply grow_refl); try contradiction.
+  - destruct (ver =? 1).
+    + destruct (append_v1 _ _ _ _ _ _ _ _ _) as [[d' p'] [[rr err] perr]] eqn:A. simpl. apply G. eapply append_v1_grow; eauto.
+    + destruct (append_v2 _ _ _ _ _ _ _ _ _ _ _ _ _) as [[d' p'] [[rr err] perr]] eqn:A. simpl. apply G. eapply append_v2_grow; eauto.
+  - destruct (exemplar_v1 _ _ _ _) as [[d' p'] [[rr err] perr]] eqn:A. simpl. apply G. eapply exemplar_v1_grow; eauto.
+  - destruct (commit_last (st_db st) (get_app st a) rolls r s F) as [s' [F' [L' [M' _]]]].
+    simpl in F'. rewrite F'. auto.
+  - rewrite find_id_filter. destruct (memz r (gc_gone mint (d_series (st_db st)))) eqn:M.
+    + exists mint. split; auto. apply memz_iff. auto.
+    + rewrite F. split; auto; lia.
+Qed.
+
+(* ------------------------------------------------------------------ sequential histories: the theorems *)
+Theorem logged_sequential o es a rolls it :
+  wellformed (es ++ [ECommit a rolls]) = true ->
+  In it (pending_items (get_app (run o es) a)) ->
+  logged (fst it) (snd it)
+         (wal_records (d_wal (st_db (run o (es ++ [ECommit a rolls]))))) = true.
+Proof.
+  intros W H. unfold run in *. rewrite run_from_app.
+  destruct (inv_run o es st_empty None (ECommit a rolls) inv_empty W) as [open' [I N]].
+  eapply commit_logged; eauto.
+Qed.
+
+(* every live series has its series record in the WAL whenever no appender is open *)
+Theorem live_series_logged o es e s :
+  wellformed (es ++ [e]) = true -> (e = ERestart \/ exists m, e = ETruncate m) ->
+  In s (d_series (st_db (run o es))) ->
+  In (s_ref s) (series_refs (wal_records (d_wal (st_db (run o es))))).
+Proof.
+  intros W He H. unfold run in *.
+  destruct (inv_run o es st_empty None e inv_empty W) as [open' [I N]].
+  assert (open' = None).
+  { destruct open'; auto. destruct He as [He|[m He]]; subst e; simpl in N; congruence. }
+  subst. destruct (inv_series _ _ I (s_ref s)) as [C|C]; auto.
+  - unfold series_ids. apply in_map. auto.
+  - simpl in C. contradiction.
+Qed.
+
+Theorem no_queries o es which mint maxt :
+  query (st_db (run o es)) which mint maxt = E_UNSUPPORTED /\
+  step o (run o es) (EQuery which mint maxt) = (run o es, OQuery E_UNSUPPORTED).
+Proof. split; reflexivity. Qed.
+
+(* ------------------------------------------------------------------ refutations (replayed on the real agent DB by the
+   harness: corpus cases 0 and 2) *)
+Definition o0 : opts := mkO 0 false.
+
+(* appender 1 creates the series, appender 2 appends to it and commits first *)
+Definition ex_interleaved : list event :=
+  [EAppend 1 1 0 1 0 1000 1 9 0 false false [];
+   EAppend 2 1 0 1 0 1001 2 9 0 false false []].
+
+Lemma interleaved_refuted :
+  wellformed (ex_interleaved ++ [ECommit 2 []]) = false /\
+  In (0, (1, 1001, 2)) (pending_items (get_app (run o0 ex_interleaved) 2)) /\
+  logged 0 (1, 1001, 2) (wal_records (d_wal (st_db (run o0 (ex_interleaved ++ [ECommit 2 []]))))) = false /\
+  wal_records (d_wal (st_db (run o0 (ex_interleaved ++ [ECommit 2 []; ECommit 1 []])))) =
+    [RSamples 0 [(1, 1001, 2)]; RSeries [(1, 1)]; RSamples 0 [(1, 1000, 1)]].
+Proof. vm_compute. auto. Qed.
+
+(* a series created by an open appender is garbage collected before the commit; two truncations later its
+   series record is gone while its sample (at or after every truncation time) is still in the WAL *)
+Definition ex_gc_pending : list event :=
+  [EAppend 1 1 0 1 0 5000 1 9 0 false false []; ECommit 1 [];
+   EAppend 2 1 0 2 0 5000 1 9 0 false false []; ERoll; ERoll; ETruncate 4000; ECommit 2 [];
+   ERoll; ERoll; ERoll; ERoll; ETruncate 4500].
+
+Lemma gc_pending_refuted :
+  wellformed ex_gc_pending = false /\
+  let w := wal_records (d_wal (st_db (run o0 ex_gc_pending))) in
+  w = [RSeries [(1, 1)]; RSamples 0 [(1, 5000, 1)]; RSamples 0 [(2, 5000, 1)]] /\
+  logged 0 (2, 5000, 1) w = false.
+Proof. vm_compute. auto. Qed.
+
+(* non-vacuity: a sequential history with an out-of-order rejection, a rollback, a garbage collection, a
+   checkpoint and a restart (which re-creates the collected series 2 and 3 from their kept records, lastTs 0) *)
+Definition ex_seq : list event :=
+  [EAppend 1 1 0 1 0 1000 1 9 0 false false []; EAppend 1 1 0 2 0 1000 2 9 1 false false [];
+   EExemplar 1 1 (7, 1000, 0); ECommit 1 [];
+   EAppend 2 2 0 1 0 900 3 9 0 false false []; EAppend 2 2 0 1 0 2000 4 9 0 false false [(8, 2000, 0)]; ECommit 2 [1];
+   EAppend 3 1 0 3 0 2100 5 9 0 false false []; ERollback 3 [];
+   ERoll; ERoll; ETruncate 1500; ERestart;
+   EAppend 4 1 0 1 0 2500 6 9 0 false false []].
+
+Lemma ex_seq_facts :
+  wellformed (ex_seq ++ [ECommit 4 []]) = true /\
+  pending_items (get_app (run o0 ex_seq) 4) = [(0, (1, 2500, 6))] /\
+  w_cpidx (d_wal (st_db (run o0 ex_seq))) = 1 /\
+  map s_last (d_series (st_db (run o0 ex_seq))) = [2000; 0; 0] /\
+  logged 0 (1, 2500, 6) (wal_records (d_wal (st_db (run o0 (ex_seq ++ [ECommit 4 []]))))) = true.
+Proof. vm_compute. auto. Qed.
+
+(* ------------------------------------------------------------------ end to end: accepted, then committed => logged *)
+Lemma run_from_app2 o : forall l1 st l2,
+  fst (run_from o st (l1 ++ l2)) = fst (run_from o (fst (run_from o st l1)) l2).
+Proof.
+  induction l1 as [|x l1 IH]; intros st l2; [reflexivity|].
+  rewrite <- app_comm_cons, !run_from_cons. apply IH.
+Qed.
+
+Lemma pending_kept_run o a : forall es st,
+  forallb (fun e => negb (ends a e)) es = true ->
+  incl (pending_items (get_app st a)) (pending_items (get_app (fst (run_from o st es)) a)).
+Proof.
+  induction es as [|e es IH]; intros st H; [apply incl_refl|].
+  simpl in H. apply andb_true_iff in H. destruct H as [H1 H2]. apply negb_true_iff in H1.
+  rewrite run_from_cons. eapply incl_tran; [apply pending_kept; exact H1|apply IH; auto].
+Qed.
+
+Theorem accepted_logged o es1 a ver r b stt t v zv kind hbad stale exs es2 rolls rr err perr :
+  let ap := EAppend a ver r b stt t v zv kind hbad stale exs in
+  wellformed (es1 ++ ap :: es2 ++ [ECommit a rolls]) = true ->
+  forallb (fun e => negb (ends a e)) es2 = true ->
+  0 <= kind <= 4 ->
+  snd (step o (run o es1) ap) = OAppend rr err perr ->
+  err = E_OK \/ err = E_PARTIAL ->
+  logged kind (rr, t, v)
+         (wal_records (d_wal (st_db (run o (es1 ++ ap :: es2 ++ [ECommit a rolls]))))) = true.
+Proof.
+  intros ap W K2 K O E.
+  replace (es1 ++ ap :: es2 ++ [ECommit a rolls]) with ((es1 ++ ap :: es2) ++ [ECommit a rolls]) in *
+    by (rewrite <- app_assoc; reflexivity).
+  apply (logged_sequential o (es1 ++ ap :: es2) a rolls (kind, (rr, t, v))); auto.
+  unfold run. rewrite run_from_app2, run_from_cons.
+  apply (pending_kept_run o a es2); auto.
+  fold (run o es1). unfold ap in *. simpl in *.
+  destruct (ver =? 1).
+  - destruct (append_v1 o (st_db (run o es1)) (get_app (run o es1) a) r b t v kind hbad) as [[d' p'] [[rr' err'] perr']] eqn:A.
+    simpl in *. inversion O; subst. unfold get_app. simpl. rewrite lookup_upsert_eq.
+    destruct E as [E|E]; [|eapply append_v1_accept in A; eauto].
+    + eapply append_v1_accept; eauto.
+    + exfalso. clear - A E. unfold append_v1 in A.
+      destruct (negb (kind =? 0) && hbad); [inversion A; subst; discriminate|].
+      destruct (get_or_create _ _ _ _) as [[[d1 p1] s]|e] eqn:G; [|apply goc_err in G; inversion A; subst; discriminate].
+      destruct (t <=? min_valid _ _); inversion A; subst; discriminate.
+  - destruct (append_v2 o (st_db (run o es1)) (get_app (run o es1) a) r b stt t v zv kind hbad stale exs) as [[d' p'] [[rr' err'] perr']] eqn:A.
+    simpl in *. inversion O; subst. unfold get_app. simpl. rewrite lookup_upsert_eq.
+    eapply append_v2_accept; eauto.
 Qed.
